@@ -1,4 +1,41 @@
-(* placeholder, replaced once the proofs are in *)
-From BM Require Import Net.Topo.
-Theorem c10_placeholder : True. Proof. exact I. Qed.
-Print Assumptions c10_placeholder.
+(* C10 — editing a machine's topology never corrupts the bonds it does not touch.
+   Only statements; proofs are in Proofs/TopoProofs.v. *)
+From Coq Require Import List ZArith.
+From BM Require Import Net.Topo Proofs.TopoProofs.
+Import ListNotations.
+
+(* every machine reachable from the empty machine by any sequence of API edits
+   (including edits with negative / too-large indices and names of nothing) is well formed *)
+Theorem edits_preserve_wf : forall (d : list (nat * nat)) (ops : list op), wf (run d ops).
+Proof. exact edits_preserve_wf_all. Qed.
+Print Assumptions edits_preserve_wf.
+
+(* and its bond set is the one the name-level specification computes *)
+Theorem edits_refine_spec : forall d ops, seq (abs (run d ops)) (snd (run2 d ops)).
+Proof. intros d ops. exact (proj2 (edits_refine_spec_all d ops)). Qed.
+Print Assumptions edits_refine_spec.
+
+(* one step, from any well-formed machine (not only reachable ones) *)
+Theorem edit_refines_spec : forall b o, wf b -> wf (step b o) /\ seq (abs (step b o)) (spec_apply (abs b) (abs_op b o)).
+Proof. intros b o W. split; [exact (wf_step b o W) | exact (step_refines b o W)]. Qed.
+Print Assumptions edit_refines_spec.
+
+(* a bond not addressed by the edit still joins the same two named endpoints,
+   modulo the documented renumbering of external ports above a deleted one *)
+Theorem untouched_bonds_unchanged : forall b o s e,
+  wf b -> In (s, e) (bond_set b) -> ~ touches (abs b) (abs_op b o) (s, e) ->
+  In (rename_src (abs_op b o) s, rename_snk (abs_op b o) e) (bond_set (step b o)).
+Proof. exact untouched_bonds_unchanged_all. Qed.
+Print Assumptions untouched_bonds_unchanged.
+
+(* non-vacuity: a reachable machine with interleaved processor/external endpoints and three
+   bonds; deleting external input 0 keeps the bond of input 1 (renumbered to i0) and the
+   processor-to-processor bond, and removes exactly the bond of the deleted input *)
+Definition ex_ops : list op :=
+  [AddInput; AddProc 0; AddInput; AddOutput; AddProc 0;
+   AddBond (Name (PI 0 0)) (Name (BI 0)); AddBond (Name (BI 1)) (Name (PI 1 1));
+   AddBond (Name (PO 0 1)) (Name (BO 0)); AddBond (Name (PI 1 0)) (Name (PO 0 0))]%Z.
+Example ex_state_nontrivial :
+  bond_set (run [(2, 2)] ex_ops) = [(BI 0, PI 0 0); (PO 0 1, BO 0); (PO 0 0, PI 1 0); (BI 1, PI 1 1)] /\
+  bond_set (step (run [(2, 2)] ex_ops) (DelInput 0)) = [(PO 0 1, BO 0); (PO 0 0, PI 1 0); (BI 0, PI 1 1)].
+Proof. vm_compute. split; reflexivity. Qed.
